@@ -246,10 +246,11 @@ Definition fnames (fl : list (N * nat)) : list N := map fst fl.
 (* a world that fixes at least what another one fixes *)
 Definition wsub (W W' : world) : Prop :=
   (forall c x, w_IS W c x -> w_IS W' c x) /\ (forall p lv, w_IL W p lv -> w_IL W' p lv) /\
-  (forall ci cl, w_CS W ci cl -> w_CS W' ci cl) /\ (forall fid c, w_CL W fid c -> w_CL W' fid c).
-Lemma wsub_refl W : wsub W W. Proof. repeat split; auto. Qed.
+  (forall ci cl, w_CS W ci cl -> w_CS W' ci cl) /\ (forall fid c, w_CL W fid c -> w_CL W' fid c) /\
+  incl (w_funs W) (w_funs W').
+Lemma wsub_refl W : wsub W W. Proof. repeat split; auto. apply incl_refl. Qed.
 Lemma wsub_trans W1 W2 W3 : wsub W1 W2 -> wsub W2 W3 -> wsub W1 W3.
-Proof. intros (A & B & C & D) (A' & B' & C' & D'). repeat split; auto. Qed.
+Proof. intros (A & B & C & D & F) (A' & B' & C' & D' & F'). repeat split; auto. eapply incl_tran; eassumption. Qed.
 
 Section Rel.
 Variable pv : N.       (* the id of the external print *)
@@ -263,7 +264,7 @@ Definition fvis (d : fdyn) (g : N) : Prop := In g (fd_sc d) \/ In g (fnames (fd_
 (* the facts about a function that never change *)
 Record fstatic (d : fdyn) : Prop := mkFstatic {
   fs_lower : lower_fbody (statement (fd_g d)) (expression (fd_g d)) (fd_body d) (fd_ctx d) (fd_c d) = Ok (fd_code d, fd_c' d);
-  fs_frag : frag_body pv sv bound (fd_k d) (fd_fl d) (rev (fd_params d) ++ fd_sc d) (fd_body d) = Some (fd_scout d);
+  fs_frag : frag_stmts pv sv bound (fd_fl d) (fd_k d) (rev (fd_params d) ++ fd_sc d) (fd_body d) = Some (fd_scout d);
   fs_params : params_ok pv sv bound (fd_fl d) (fd_sc d) (fd_params d) = true;
   fs_self : In (fd_var d, length (fd_params d)) (fd_fl d);
   fs_var : fd_var d < bound /\ fd_var d <> pv /\ fd_var d <> sv;
